@@ -121,4 +121,24 @@ def wireVerdict (id : Nat) (pairs : List Pair) (body : Bytes) (wire : Bytes) : S
     else if (pairs.filter fits).all (fun p => count p r.params == count p pairs) then "ok"
     else "bad:params:a parameter that fits a record does not arrive intact"
 
+/-! ### response direction -/
+
+/-- The property for the response direction: the responder meant to send the CGI response
+`out` (header block, blank line, body) on stdout and `err` on stderr, framed in any way.  The
+client must end up with exactly that status, those headers and that body, read to a clean end,
+and with `err` — all of it, nothing else — in the error-log buffer. -/
+def respVerdict (out err : Bytes) (observed : ViewResult) : String :=
+  match parseResponse out with
+  | .resp r =>
+    match observed with
+    | .view v =>
+      if v.status ≠ r.status || v.statusText ≠ r.statusText then "bad:status:the client sees another status than the responder sent"
+      else if v.headers ≠ sortHeaders r.headers then "bad:headers:the client sees other headers than the responder sent"
+      else if v.body ≠ r.body then "bad:body:the client does not receive exactly the responder's body"
+      else if v.stderr ≠ err then "bad:stderr:the error log does not hold exactly the responder's stderr"
+      else if v.fin ≠ .eof then "bad:end:the response does not end cleanly"
+      else "ok"
+    | _ => "bad:response:the client got no response"
+  | _ => "bad:case:intended response outside the modelled grammar"
+
 end Casket.FCGISpec
